@@ -38,7 +38,11 @@ def gen(rng, tier):
         focus["solo"] = True
     if rng.random() < 0.4:
         focus["res_abs"] = True
-    feasible = rng.random() < 0.35
+    if rng.random() < 0.2:
+        # several worker-facility pairs on one task, facilities that come and go while it is worked on
+        focus.update(comps=True, facilities=True, contention="low", res_abs=True, fac_abs_dense=True, solo=False, fix=False, nested=False,
+                     single_task_comps=True, zero_skill=False)
+    feasible = rng.random() < 0.35 and not focus.get("fac_abs_dense")
     return C.maybe_history(rng, C.forward_spec(rng, tier, focus, feasible=feasible), 0.25, reload_prob=0.4)
 
 
@@ -53,6 +57,11 @@ def can_accept_worker(st, T, tid, wid):
     if st.worker[wid].get("solo") and len(ws) > 0:
         return False
     return True
+
+
+def holding(T, assigned):
+    """tasks a resource holds that are not FINISHED (an entry for a FINISHED task is a leftover: such a resource is idle)"""
+    return [t for t in assigned if t not in T or T[t][0] != FINISHED]
 
 
 def check_trace(res, tr):
@@ -121,8 +130,8 @@ def check_trace(res, tr):
                 nontrivial = True
                 res.count("free_worker_with_open_task")
             for w in free_ws:
-                if A["W"][w][1]:
-                    continue  # FREE but holding: C03's business
+                if holding(AT, A["W"][w][1]):
+                    continue  # FREE but holding an unfinished task: C03's business
                 for tid in open_tasks:
                     if st.nf(tid):
                         continue
@@ -161,10 +170,10 @@ def check_trace(res, tr):
                             break
                         pair = None
                         for f in [x["id"] for x in st.wp[wid_]["facs"]]:
-                            if A["F"][f][0] != D.FREE or A["F"][f][1] or not st.eligible_f(f, tid):
+                            if A["F"][f][0] != D.FREE or holding(AT, A["F"][f][1]) or not st.eligible_f(f, tid):
                                 continue
                             for w in free_ws:
-                                if A["W"][w][1] or not st.eligible_w(w, tid) or st.w_fskill(w, f) <= TOL:
+                                if holding(AT, A["W"][w][1]) or not st.eligible_w(w, tid) or st.w_fskill(w, f) <= TOL:
                                     continue
                                 pair = (f, w)
                                 break
@@ -186,14 +195,14 @@ def check_trace(res, tr):
                 if any(st.worker[x].get("solo") for x in ws if x in st.worker) or any(st.fac[x].get("solo") for x in fs if x in st.fac):
                     continue
                 for f in [x["id"] for x in st.wp[placed]["facs"]]:
-                    if A["F"][f][0] != D.FREE or A["F"][f][1]:
+                    if A["F"][f][0] != D.FREE or holding(AT, A["F"][f][1]):
                         continue
                     if not st.eligible_f(f, tid):
                         continue
                     if st.fac[f].get("solo") and len(fs) > 0:
                         continue
                     for w in free_ws:
-                        if A["W"][w][1]:
+                        if holding(AT, A["W"][w][1]):
                             continue
                         res.count("pair_candidate_checked")
                         if not st.eligible_w(w, tid) or st.w_fskill(w, f) <= TOL:
